@@ -148,6 +148,10 @@ func (a verifSnapshot) equal(b verifSnapshot) bool {
 	return true
 }
 
+// verifRenameTo: the new name of the MailboxUpdated update (set by the harness: an unrelated name or the current name
+// in another letter case)
+var verifRenameTo = "renamed"
+
 // verifUpdate builds the update number `kind` against known / unknown / protected objects.
 func verifUpdate(kind int, target int) imap.Update {
 	mb := []imap.MailboxID{"mb-A", "mb-unknown", ids.GluonInternalRecoveryMailboxRemoteID}[target]
@@ -158,7 +162,7 @@ func verifUpdate(kind int, target int) imap.Update {
 	case 1:
 		return imap.NewMailboxDeleted(mb)
 	case 2:
-		return imap.NewMailboxUpdated(mb, []string{"renamed"})
+		return imap.NewMailboxUpdated(mb, []string{verifRenameTo})
 	case 3:
 		return imap.NewMailboxIDChanged([]imap.InternalMailboxID{2, 99, 1}[target], "mb-A2")
 	case 4:
@@ -195,6 +199,10 @@ func VerifC06Apply() {
 
 	kind := vsymChoice("kind", 11)
 	target := vsymChoice("target", 3) // known / unknown / protected object
+	verifRenameTo = "renamed"
+	if kind == 2 && vsymChoice("renameCaseOnly", 2) == 1 {
+		verifRenameTo = "a" // mailbox A renamed to the same name in lower case: a rename like any other
+	}
 	d.FaultBudget = vsymParam("faults")
 	st.faultBudget = vsymParam("faults")
 
@@ -214,6 +222,9 @@ func VerifC06Apply() {
 	} else {
 		vsymCover("apply-ok")
 		vsymAssert(!ok && werr == nil, "the waiter is closed without an error")
+		if kind == 2 && target == 0 {
+			vsymAssert(a.Name == verifRenameTo, "a MailboxUpdated for a known mailbox renames it to exactly the announced name")
+		}
 	}
 	// every message row reachable from a mailbox has its bytes in the store (or can be re-downloaded: has a remote id)
 	for _, b := range d.Boxes {
